@@ -894,6 +894,12 @@ func (r *rend) stmt(s *N) {
 			r.line("defer fmt.Println(\"d\", %s)", Expr(s.E))
 		case "method":
 			r.line("defer %s.bump(%s)", s.S, Expr(s.E))
+		case "nilfn":
+			// a nil function value, deferred: in a block of its own, so that several of them can stand in one function
+			r.line("{")
+			r.line("\tvar hn func()")
+			r.line("\tdefer hn()")
+			r.line("}")
 		case "clo":
 			r.line("defer %s()", s.S)
 		case "mdel":
